@@ -71,7 +71,7 @@ def run_pipeline(P, tier, seed, replay=None):
         print(out)
         print("BROKEN-CHECK: the extracted model driver does not build")
         return 2
-    if P.release_too and tier == "thorough":
+    if P.release_too:
         ok, out = dv.build_harness(release=True)
         if not ok:
             print(out)
@@ -181,6 +181,19 @@ def evaluate(P, cases, tier, model=True):
     nontrivial = set()
     dist = {}
     samples = []
+    if P.release_too:
+        # the same cases against the optimised build (integer overflow wraps instead of panicking, debug assertions are gone):
+        # its observations must satisfy the same oracle and agree with the model as well
+        impl_rel = dv.run_impl(lines, release=True)
+        for c in cases:
+            io = impl_rel.get(c.id)
+            if model and not c.meta.get("impl_only"):
+                i = dv.diff_obs(io, mod.get(c.id), keep_steps=P.keep_steps(c, io), keep_err=P.keep_err)
+                if i is not None:
+                    divergences.append((c, i, io, mod.get(c.id)))
+            why = P.oracle(c, io)
+            if why:
+                oracle_failures.append((c, "[release build] " + why if not why.startswith("[") else why))
     for c in cases:
         io = impl.get(c.id)
         if model and not c.meta.get("impl_only"):
